@@ -430,4 +430,23 @@ func c03Equals(k *fw.K, a, b *ref.T) {
 		check(ra, rt.MustLeaf(c, false), false, fmt.Sprintf("one element differs at %v", ref.Unravel(pos, a.Shape)))
 		k.Count("equals_checks", 1)
 	}
+	if len(a.Data) >= 2 {
+		// differences of opposite sign that cancel in the total: two exchanged elements; +d at one position and -d at another
+		c := a.Clone()
+		i, j := k.Rng.Intn(len(c.Data)), k.Rng.Intn(len(c.Data)-1)
+		if j >= i {
+			j++
+		}
+		if math.Abs(c.Data[i]-c.Data[j]) > 1e-3 { // clearly different (Eq / Equals are specified for identical or clearly different values); false for NaN
+			c.Data[i], c.Data[j] = c.Data[j], c.Data[i]
+			check(ra, rt.MustLeaf(c, false), false, fmt.Sprintf("elements %d and %d exchanged", i, j))
+			k.Count("equals_checks", 1)
+		}
+		d := a.Clone()
+		if v, w := d.Data[i], d.Data[j]; math.Abs(v) < 1e15 && math.Abs(w) < 1e15 && v+0.5 != v && w-0.5 != w {
+			d.Data[i], d.Data[j] = v+0.5, w-0.5
+			check(ra, rt.MustLeaf(d, false), false, fmt.Sprintf("+0.5 at element %d and -0.5 at element %d", i, j))
+			k.Count("equals_checks", 1)
+		}
+	}
 }
